@@ -239,7 +239,14 @@ def register(PROPS, COMPONENTS):
                    "linearisation step changes the maps; mutual exclusion; the lock is held exactly inside critical sections "
                    "(never leaked); every accepted plain access to the maps is made by the lock holder, so two threads are "
                    "never both in a position to touch them (data-race-freedom of the maps); the holder is never blocked and "
-                   "its critical section is bounded; deadlock-freedom. "
+                   "its critical section is bounded; deadlock-freedom; and, without any fairness assumption (Proof/SOHLive.lean, "
+                   "lexicographic form of Base/Live.lean; environment events = call, callD, rel, the payload destructor, the tap "
+                   "observation), C17_terminates: no infinite execution with finitely many environment events (two-level rank: not "
+                   "yet inside mapLock, then pending predicate invocations + 3 — fixed by the map at the lock acquisition, "
+                   "C17_cs_work_fixed_at_lock — and 3(7-c)+.. for the destructor's retry loop), and C17_progress / "
+                   "C17_stuck_all_returned: a state without enabled library step has every thread returned (except calls that "
+                   "raced with the completed destructor), so every maximal execution with finitely many calls ends with "
+                   "everybody returned. "
                    "(3) Reference ledger: the payload destructor is accepted only when no map entry and no caller-held "
                    "reference refers to the object, hence in every reachable state every stored or caller-held object is "
                    "alive, a returned object is owned by the caller from the linearisation point until its own release "
@@ -255,8 +262,9 @@ def register(PROPS, COMPONENTS):
                  "the class) is NOT proved: the specification has no notion of node memory. It is covered by exploration only: "
                  "component soh-asan runs the same directed and random scripts on an ASan+UBSan build; a sanitizer report or a "
                  "crash is reported as a concrete failing input (script, seed, schedule, trace up to the abort)",
-                 "deadlock-freedom is proved as safety facts (holder always enabled, bounded critical section, acquirer "
-                 "enabled when the lock is free); the fair-scheduler termination step is not mechanised",
+                 "termination is proved for every scheduler for executions with finitely many calls (C17_terminates, "
+                 "C17_stuck_all_returned); NOT proved: that one particular caller is eventually served when other threads make "
+                 "infinitely many calls (starvation under an unfair std::mutex / scheduler; C++ gives no fairness)",
                  "only the default build (no ENABLE_TRIPWIRE) is modelled and built"],
     )
 
